@@ -27,6 +27,7 @@ type Stats struct {
 	Files, Bytes, Deliveries int64
 	Frags, Zero, DataEOF     int64
 	Faces, Rows              int64
+	WriteFaults              int64
 	Shapes                   map[string]struct{}
 	Sample                   any
 	NonTrivial               bool
